@@ -17,6 +17,7 @@ import (
 	"sort"
 	"strings"
 
+	"github.com/mit-pdos/go-nfsd/fstxn"
 	"github.com/mit-pdos/go-nfsd/nfstypes"
 )
 
@@ -293,6 +294,77 @@ func (s *seqRun) nospcScenarios(h int) {
 	}
 }
 
+// refusedCommitScenario: a request whose COMMIT the journal refuses (a SYMLINK whose target does
+// not fit into the log) on a disk where the numbers it has to give back are nearly the only
+// free ones, and another client's WRITE scheduled in the gap between the end of the failed
+// transaction and the handler's reply (the observer hook runs it right at "abort-end": the locks
+// are free, the handler has not returned).  Whatever the handler still does with its dead
+// transaction must not touch what the other client was given meanwhile: allocators = bitmaps
+// afterwards (C10; a trace of the failed request, C09), nobody shares a block (C04), everything
+// comes back (C05).
+func (s *seqRun) refusedCommitScenario(h int) {
+	if s.dead {
+		return
+	}
+	tag := fmt.Sprintf("history %d refused-commit", h)
+	w := s.mk("create", s.root(), "w")
+	z := s.mk("create", s.root(), "z")
+	if w == nil || z == nil || !s.fillTo(517) {
+		s.deleteTree(s.root())
+		return
+	}
+	wdata := s.mkData(4 * 4096)
+	for i := range wdata {
+		wdata[i] |= 1 // never all zeros
+	}
+	fired := false
+	old := fstxn.VerifObserver
+	fstxn.VerifObserver = func(kind string, op *fstxn.FsTxn, arg uint64) {
+		if kind == "abort-end" && !fired {
+			fired = true
+			fstxn.VerifObserver = old
+			s.opWrite(w, 0, 4*4096, 2, wdata) // the other client
+			wrote := s.lastStatus == nfstypes.NFS3_OK
+			if !wrote {
+				fired = false // (reported below)
+			}
+		}
+	}
+	before := s.freeCounts()
+	s.opCreate("symlink", s.root(), "big", 0, s.mkData(515*4096))
+	fstxn.VerifObserver = old
+	st := s.lastStatus
+	after := s.freeCounts()
+	emit("# refused-commit %s: symlink status %d, other client's write ran=%v, free blocks %d -> %d", tag, st, fired, before[0], after[0])
+	if st == nfstypes.NFS3_OK || !fired {
+		// the log took it (a bigger log?) or nothing was aborted: the scenario does not apply
+		s.deleteTree(s.root())
+		return
+	}
+	s.coherenceAfter(true)
+	if after[0]+4 != before[0] {
+		s.oracle("C09", "refused-commit-free-count", fmt.Sprintf("%s: a SYMLINK whose commit the journal refused (status %d) ran next to a 4-block WRITE of another client; free blocks went from %d to %d instead of %d", tag, st, before[0], after[0], before[0]-4))
+	}
+	// somebody takes everything that is free now
+	for i := 0; i < 12 && !s.dead; i++ {
+		zd := s.mkData(50 * 4096)
+		s.opWrite(z, uint64(i)*50*4096, 50*4096, 2, zd)
+		if s.lastStatus != nfstypes.NFS3_OK {
+			break
+		}
+	}
+	var rd nfstypes.READ3res
+	if s.guarded("readback", func() {
+		rd = s.srv.NFSPROC3_READ(nfstypes.READ3args{File: mkfh3(w), Offset: 0, Count: 4 * 4096})
+	}) && (rd.Status != nfstypes.NFS3_OK || string(rd.Resok.Data) != string(wdata)) {
+		s.oracle("C04", "block-shared-between-files", fmt.Sprintf("%s: /w was written while a SYMLINK with a refused commit (status %d) was giving its blocks back; after /z took the free space /w no longer reads back what was written to it (status %d)", tag, st, rd.Status))
+	}
+	s.fsckPoint(tag + " after the free space was taken")
+	s.coherence()
+	s.deleteTree(s.root())
+	s.fsckPoint(tag + " after delete-all")
+}
+
 // coherenceAfter: caches = logical disk (C10); after a FAILED request a difference is also a trace
 // that request left behind (C09).
 func (s *seqRun) coherenceAfter(failed bool) {
@@ -338,6 +410,7 @@ func cmdReclaim(fs *flag.FlagSet, args []string) {
 		s.fsckPoint("empty file system")
 		var allocated uint64
 		s.nospcScenarios(h)
+		s.refusedCommitScenario(h)
 		if after := s.freeCounts(); after != base && !s.dead {
 			s.oracle("C05", "space-not-reclaimed", fmt.Sprintf("history %d (disk %d): after the full-disk scenarios and removing everything the allocators report %d free blocks / %d free inodes; the empty file system had %d / %d", h, sz, after[0], after[1], base[0], base[1]))
 		}
